@@ -26,6 +26,9 @@ CLAIMED = {
  "C18": dict(cat="model_checking", ref="5 C18", tech="bounded stand-in: Kani/CBMC harnesses over the real select_all.rs via #[path], n <= 5 futures, all other inputs fully symbolic",
    text="BOUNDED (n <= 5 futures, quick n <= 3): for every start index (all 2^64+1 Option<usize> values) and every readiness vector the real SelectAll::poll polls in rotation order s, s+1, ... each at most once, returns the first ready one, Pending iff none; and with the server's 'start at winner+1' glue the same connection does not win twice while another is ready",
    note="bounded in n, labelled bounded, never counted as proved; Verus cannot ingest impl Future for SelectAll; Server::run glue replicated in the harness; swap_remove reordering across closures not covered"),
+ "C19": dict(cat="proof", ref="5 C19", tech=TECH + "; cancel-point assertion for the abandoned-send clause",
+   text="the two transport adapters of zlink-tokio and zlink-smol: ReadHalf::read is a pass-through of the runtime read; WriteHalf::write hands the runtime exactly buf, in order, nothing else (loop invariant sent = buf[..pos], termination given n >= 1), a prefix on error. The abandoned-send clause is a cancel-point obligation in the write loop; it FAILS in both crates and is reported as two KNOWN-FINDINGs (reproduced on real sockets by replay_rt)",
+   note="assumed: kernel FIFO and runtime write/read contracts (trusted leaves); composition with C01/C02 on paper; listener from inherited fd, connection ids, bidirectional concurrency not decided"),
  "C17": dict(cat="proof", ref="5 C17", tech=TECH,
    text="inbound and outbound buffer length <= MAX_BUFFER_SIZE on every exit; BufferOverflow only when the undelivered / pending bytes reach the limit; refused outbound message leaves pending bytes and log unchanged; proved for the production constants",
    note="assumed: vstd Vec specs, to_slice contract; serde_json heap use and Vec capacity not covered"),
@@ -42,7 +45,6 @@ NA = {
  "C16": "derive-macro output and macro-generated const TYPE impls; equality of compile-time constants per program",
  "C20": "semantics of tokio broadcast / async-broadcast channels under task interleavings; Kani has no threads, Verus would need permission types for code we do not own",
  "C13": "not yet built (planned: unit idl_tokens)",
- "C19": "not yet built (planned: unit transport)",
 }
 EXTRA = os.path.join(HERE, "tools", "manifest_extra.json")
 if os.path.exists(EXTRA):
